@@ -313,7 +313,7 @@ def rule_no_yield_under_mode(db: ProgramDB) -> List[Instance]:
         "def leaky():\n"
         "    with symbolic_mode(mode=None):\n"
         "        yield 1\n")
-    db2 = ProgramDB(repo=db.repo, overrides=dict(db.overrides, __eqlsa_example__=example))
+    db2 = ProgramDB(repo=db.repo, overrides=dict(db.source_overrides, __eqlsa_example__=example))
     f = db2.fn("__eqlsa_example__:leaky")
     if not yields_under_mode(db2, f):
         out.append(inst("NO-YIELD-UNDER-MODE", UNDECIDED, "", "positive-example",
